@@ -1,5 +1,7 @@
 package main
 
+import "fmt"
+
 // Per-property history suites: the same online generator, aimed (by weights, deviation rate and
 // wanted features) at the guards each property is about.  The case files evaluate the
 // correspondence and the property's monitor (Corr/Monitors.v) on the implementation's trace.
@@ -52,10 +54,59 @@ func init() {
 		ctx.writeSysCases("mon_C05", true)
 		ctx.writeCasesJSON()
 	}})
+	histSuite("c02", "mon_C02", "authorization requests (GET and POST; plain and pushed) over redirect_uri variants (exact, prefix/suffix/case/port/scheme/userinfo/percent-encoding variations, pushed-unregistered URIs replayed in plain requests, outer/inner disagreement, absent) crossed with error-producing parameters, response modes and policy outcomes; sequences with pushed unregistered redirect URIs followed by ordinary requests",
+		140, 5000, 34, map[string]bool{"par": true, "implicit": true},
+		map[string]int{"authorize": 34, "callback": 16, "par": 16, "code": 6, "refresh": 1, "cc": 1, "query": 3, "tick": 5, "bc": 1, "poll": 1, "notify": 1}, 45)
 	histSuite("c03", "mon_C03", "interleaved authorizations for several clients/users, redemptions by the right or another client with right/wrong/absent redirect_uri and code_verifier (both methods), ticks across the 60 s code lifetime, replays, then uses of the resulting tokens",
 		120, 4000, 34, map[string]bool{"pkce": true, "refresh": true},
 		map[string]int{"authorize": 20, "callback": 8, "par": 3, "code": 26, "refresh": 8, "cc": 1, "query": 18, "tick": 8, "bc": 1, "poll": 1, "notify": 1}, 35)
-	histSuite("c10", "mon_C10", "refresh chains of 1-30 refreshes with requested sub/supersets, by the owning or another client, ticks up to and beyond the grant lifetime, rotation on and off, grants from authorization_code and CIBA; introspection of refresh tokens",
+	register(&Suite{Name: "c10near", Run: func(ctx *RunCtx) {
+		// refreshes inside the last access-token lifetime before the absolute expiry of the grant, then
+		// just past it: the expiry must not have moved, the token must be refused and the grant removed
+		for i := 0; i < ctx.N(12, 200); i++ {
+			fl := []string{"copy", "alias"}[i%2]
+			life, tl := pick(ctx.R, []int{200, 400}), pick(ctx.R, []int{40, 80})
+			opts := []Opt{{Name: "WithScopes", Scopes: serverScopes}, {Name: "WithAuthorizationCodeGrant"},
+				{Name: "WithRefreshTokenGrant", Z: life}, {Name: "WithTokenIntrospection"}, {Name: "WithTokenLifetime", Z: tl}}
+			if i%4 >= 2 {
+				opts = append(opts, Opt{Name: "WithRefreshTokenRotation"})
+			}
+			g, err := NewSysGen(ctx.R, WorldSpec{Profile: "openid", Flavour: fl, Static: baseClients(ctx.R), Opts: opts})
+			if err != nil {
+				panic(err)
+			}
+			p := Params{Redirect: "https://c2.example/cb", RespType: "code", Scopes: "openid email", State: "st-1"}
+			nav := g.do(Op{Kind: "Authorize", Client: 2, Params: p, PolicyAvail: true, Pol: Pol{Kind: "PolSuccess", Sub: "alice", Granted: "openid email"}})
+			tok := g.do(Op{Kind: "Token", Grant: "authorization_code", Cred: Cred{ID: 2, OK: true}, Code: nav.NCode, Redirect: p.Redirect, HG: "HgOk", BA: "BaApprove"})
+			rt := tok.Rt
+			intro := func() { g.do(Op{Kind: "Introspect", Cred: Cred{ID: 2, OK: true}, Tok: PTok{Kind: "PExact", H: rt}, Allowed: true}) }
+			refresh := func() {
+				o := g.do(Op{Kind: "Token", Grant: "refresh_token", Cred: Cred{ID: 2, OK: true}, Refresh: rt, HG: "HgOk", BA: "BaApprove"})
+				if o.Kind == "Tokens" && o.Rt != 0 {
+					rt = o.Rt
+				}
+			}
+			intro()
+			g.doTick(life - tl + 5 + ctx.R.Intn(tl-15)) // inside the last token lifetime
+			refresh()
+			intro()
+			if ctx.R.Intn(2) == 0 {
+				g.doTick(4)
+				refresh()
+				intro()
+			}
+			g.doTick(tl/2 + 12) // past the absolute expiry, still inside the new access token's lifetime
+			refresh()
+			intro()
+			refresh()
+			ctx.AddCase(g.Case(fmt.Sprintf("scenario:refresh-near-expiry#%d/%s", i, fl)))
+			ctx.AddStats(g.stats)
+		}
+		ctx.Meta.Rule = "scenario: refresh inside the last access-token lifetime before the grant's absolute expiry, then past it; distinct by projected trace"
+		ctx.writeSysCases("mon_C10x", true)
+		ctx.writeCasesJSON()
+	}})
+	histSuite("c10", "mon_C10x", "refresh chains of 1-30 refreshes with requested sub/supersets, by the owning or another client, ticks up to and beyond the grant lifetime, rotation on and off, grants from authorization_code and CIBA; introspection of refresh tokens",
 		100, 4000, 40, map[string]bool{"refresh": true, "ciba": true},
 		map[string]int{"authorize": 10, "callback": 4, "par": 1, "code": 12, "refresh": 34, "cc": 1, "query": 16, "tick": 9, "bc": 5, "poll": 7, "notify": 1}, 30)
 	histSuite("c16", "mon_C16", "CIBA histories over poll/ping/push clients with user code, scripted embedder decisions (pending, slow down, approve, deny, error), polls by the initiating or another client, ticks across the request lifetime, success/failure notifications through the provider API",
